@@ -31,6 +31,11 @@ def run(ctx):
     ctx.rule('C10.e-wrappers-forward', 'the ReedSolomon{En,De}coder methods the one-shot functions use (supports, new, add, encode/decode) only forward to the default-rate codec: the pre-check of the one-shot call is the predicate the constructor fails by (clause shared with C09.c)')
     ctx.rule('C10.f-iterator-is-the-accessor', 'the result iterators the one-shot functions collect from yield exactly what the accessors of the streaming result expose (clause shared with C12.b)')
     ctx.rule('C10.g-no-state-between-calls', 'nothing survives from one one-shot call to the next: no non-table static, thread-local or other hidden input is read anywhere below the API (clause shared with C05.f)')
+    ctx.rule('C10.i-same-errors', 'every error of the streaming path and the pre-checks of the one-shot functions is governed by its documented condition over the right operands, so both APIs report the same error for the same input (clause shared with C06.b)')
+    ctx.rule('C10.j-same-bookkeeping', 'each add records exactly one shard at its position and counts it once, so that the streaming sequence the one-shot call runs sees the shards it was given (clause shared with C11.a)')
+    from . import c06 as c06_, c11 as c11_
+    ctx.guard('C10.analysable', ctx.shared, {'C06.b-truthful': 'C10.i-same-errors'}, c06_.check_truthful, ctx, ctx.facts(cfgs[0]), cfgs[0])
+    ctx.guard('C10.analysable', ctx.shared, {'C11.a-add-effects': 'C10.j-same-bookkeeping'}, c11_.add_effects, ctx, ctx.facts(cfgs[0]), cfgs[0])
     ctx.rule('C10.h-same-validation', 'indexes and counts are validated before use on the streaming path the one-shot functions run through: an input the streaming API rejects cannot be accepted (or panic) in the one-shot call (clause shared with C06.a)')
     from . import c09, c12, c05, c06
     f0 = ctx.facts(cfgs[0])
